@@ -6,7 +6,7 @@
    on Coq's primitive floats for all of them (used only by the correspondence
    check, which calls the real kernels on the same points). *)
 From Coq Require Import List ZArith NArith Bool Floats Uint63.
-From Verif Require Export RangeOrd.
+From Verif Require Export RangeOrd RangeArith.
 Import ListNotations.
 
 (* ---- the float instance ----------------------------------------------------------- *)
@@ -24,28 +24,16 @@ Definition fisinf (x : float) : bool := PrimFloat.eqb x infinity || PrimFloat.eq
 
 Definition point := (Z * float)%type.     (* timestamp (ms), value *)
 
-Definition kahan (inc sum c : float) : float * float :=
-  let t := sum + inc in
-  if PrimFloat.leb (PrimFloat.abs inc) (PrimFloat.abs sum)
-  then (t, c + ((sum - t) + inc))
-  else (t, c + ((inc - t) + sum)).
+Definition fops : ops float :=
+  mkOps float 0 1 PrimFloat.add PrimFloat.sub PrimFloat.mul PrimFloat.div PrimFloat.abs
+        PrimFloat.leb PrimFloat.ltb PrimFloat.eqb fisinf PrimFloat.is_nan z2f 1000 nan.
 
-Definition sum_over_time (ps : list point) : float :=
-  let '(s, c) := fold_left (fun sc p => kahan (snd p) (fst sc) (snd sc)) ps (0, 0) in
-  if fisinf s then s else s + c.
+(* the arithmetic kernels are the generic ones of RangeArith.v on floats *)
+Definition kahan (inc sum c : float) : float * float := gkahan float fops inc sum c.
 
-Definition avg_over_time (ps : list point) : float :=
-  let '(mean, _, c) :=
-    fold_left (fun st p =>
-                 let '(mean, count, c) := st in
-                 let count := count + 1 in
-                 let v := snd p in
-                 if fisinf mean && ((fisinf v && Bool.eqb (PrimFloat.ltb 0 mean) (PrimFloat.ltb 0 v))
-                                    || (negb (fisinf v) && negb (PrimFloat.is_nan v)))
-                 then (mean, count, c)
-                 else let '(m', c') := kahan (v / count - mean / count) mean c in (m', count, c'))
-              ps (0, 0, 0) in
-  if fisinf mean then mean else mean + c.
+Definition sum_over_time (ps : list point) : float := gsum_over float fops (map snd ps).
+
+Definition avg_over_time (ps : list point) : float := gavg_over float fops (map snd ps).
 
 Definition fmax_over (ps : list point) : float :=
   match ps with
@@ -58,18 +46,7 @@ Definition fmin_over (ps : list point) : float :=
   | p :: _ => min_over float PrimFloat.ltb PrimFloat.is_nan (snd p) (map snd ps)
   end.
 
-Definition variance_over_time (ps : list point) : float :=
-  let '(count, _, _, aux, caux) :=
-    fold_left (fun st p =>
-                 let '(count, mean, cmean, aux, caux) := st in
-                 let count := count + 1 in
-                 let v := snd p in
-                 let delta := v - (mean + cmean) in
-                 let '(mean', cmean') := kahan (delta / count) mean cmean in
-                 let '(aux', caux') := kahan (delta * (v - (mean' + cmean'))) aux caux in
-                 (count, mean', cmean', aux', caux'))
-              ps (0, 0, 0, 0, 0) in
-  (aux + caux) / count.
+Definition variance_over_time (ps : list point) : float := gvariance_over float fops (map snd ps).
 
 Definition stdvar_over_time := variance_over_time.
 Definition stddev_over_time (ps : list point) : float := PrimFloat.sqrt (variance_over_time ps).
@@ -88,29 +65,7 @@ Definition fresets (ps : list point) : float :=
 Definition last_point (ps : list point) (d : point) : point := last ps d.
 
 (* linearRegression(points, interceptTime = points[0].T), the slope *)
-Definition deriv (ps : list point) : float :=
-  match ps with
-  | [] => nan
-  | p0 :: _ =>
-      let init_y := snd p0 in
-      let '(n, sx, cx, sy, cy, sxy, cxy, sx2, cx2, const_y, _) :=
-        fold_left (fun st p =>
-                     let '(n, sx, cx, sy, cy, sxy, cxy, sx2, cx2, const_y, first) := st in
-                     let const_y := if const_y && negb first && negb (PrimFloat.eqb (snd p) init_y) then false else const_y in
-                     let x := z2f (fst p - fst p0) / 1000 in
-                     let '(sx, cx) := kahan x sx cx in
-                     let '(sy, cy) := kahan (snd p) sy cy in
-                     let '(sxy, cxy) := kahan (x * snd p) sxy cxy in
-                     let '(sx2, cx2) := kahan (x * x) sx2 cx2 in
-                     (n + 1, sx, cx, sy, cy, sxy, cxy, sx2, cx2, const_y, false))
-                  ps (0, 0, 0, 0, 0, 0, 0, 0, 0, true, true) in
-      if const_y then (if fisinf init_y then nan else 0)
-      else
-        let sx := sx + cx in let sy := sy + cy in let sxy := sxy + cxy in let sx2 := sx2 + cx2 in
-        let cov := sxy - sx * sy / n in
-        let var := sx2 - sx * sx / n in
-        cov / var
-  end.
+Definition deriv (ps : list point) : float := gderiv float fops ps.
 
 (* instantValue: irate (is_rate) / idelta; None = no sample *)
 Definition instant_value (ps : list point) (is_rate : bool) : option float :=
